@@ -1,5 +1,11 @@
 pub fn run(args: &[String]) {
     let src = std::fs::read_to_string(&args[0]).unwrap();
     let doc = wac_parser::Document::parse(&src).unwrap();
+    if args.get(1).map(|s| s.as_str()) == Some("encode") {
+        let res = doc.resolve(Default::default()).unwrap_or_else(|e| panic!("resolve: {e:?}"));
+        let bytes = res.encode(wac_graph::EncodeOptions { define_components: true, validate: false, processor: None }).unwrap();
+        println!("{}", mc_core::print_wat(&bytes));
+        return;
+    }
     println!("{}", serde_json::to_string_pretty(&doc).unwrap());
 }
